@@ -8,6 +8,7 @@ from pathlib import Path
 from pta.check import Spec
 from pta.flow import Flow
 from pta.model import AnalysisError
+from pta.pat import find, has
 from pta.rules.common import NPGEN, concrete_kinds, handler_name, sem_fields, short
 
 NL = "pytato.target.python.numpy_like"
@@ -168,9 +169,13 @@ def r_tables(c):
                     f"BinaryOpType.{mem} is emitted as {got}(), expected {mem.lower()}()")
     # the branch tests select exactly the keys of the table they index
     fd = m.func(NPGEN + ".map_index_lambda")
+    hl_ = find(fd, f"$h = index_lambda_to_high_level_op({fd.args.args[1].arg})")
+    if len(hl_) != 1:
+        raise AnalysisError("anchor vanished: raised operation in NumpyCodegenMapper.map_index_lambda")
+    hv = hl_[0]["$h"]
     for iff in ast.walk(fd):
         if isinstance(iff, ast.If) and isinstance(iff.test, ast.Compare) \
-                and ast.unparse(iff.test.left) == "hlo.binary_op" \
+                and ast.unparse(iff.test.left) == f"{hv}.binary_op" \
                 and isinstance(iff.test.ops[0], ast.In) \
                 and isinstance(iff.test.comparators[0], (ast.Set, ast.List, ast.Tuple)):
             sel = {e.attr for e in iff.test.comparators[0].elts}
@@ -217,9 +222,10 @@ def r_tables(c):
     # every HighLevelOp subclass is handled or the cascade ends in a raise
     hl = [short(q) for q in m.subclasses("pytato.raising.HighLevelOp", strict=True)]
     handled = {ast.unparse(t.args[1]) for t in ast.walk(fd) if isinstance(t, ast.Call)
-               and ast.unparse(t.func) == "isinstance" and ast.unparse(t.args[0]) == "hlo"}
-    tail_raises = any(isinstance(s, ast.Raise) and "NotImplementedError(type(hlo))"
-                      in ast.unparse(s) for s in ast.walk(fd))
+               and ast.unparse(t.func) == "isinstance" and ast.unparse(t.args[0]) == hv}
+    tail_raises = any(isinstance(s, ast.Raise) and s.exc is not None
+                      and ast.unparse(s.exc).startswith("NotImplementedError(")
+                      for s in ast.walk(fd))
     for h in hl:
         c.check(h in handled or tail_raises, "R14-TABLES",
                 "NumpyCodegenMapper.map_index_lambda", f"hlo:{h}", m.loc(NL, fd),
@@ -289,7 +295,8 @@ def r_args(c):
             "NumpyCodegenMapper", "bound_arguments-writers", where,
             f"bound arguments are written in {sorted(writers['bound_arguments'])}")
     for (n, v, k) in bound_vals:
-        c.check(v == "expr.data", "R14-ARGS", "NumpyCodegenMapper.map_data_wrapper",
+        c.check(v == ci.methods["map_data_wrapper"].args.args[1].arg + ".data",
+                "R14-ARGS", "NumpyCodegenMapper.map_data_wrapper",
                 "binds-the-wrapped-data-itself", m.loc(ci.module, n),
                 f"the pre-bound argument is `{v}`, not the wrapper's data object")
         fd = ci.methods["map_data_wrapper"]
@@ -305,7 +312,8 @@ def r_args(c):
     added = [ast.unparse(x.args[0]) for x in ast.walk(fd) if isinstance(x, ast.Call)
              and ast.unparse(x.func) == "self.arg_names.add"]
     rets = [ast.unparse(r.value) for r in ast.walk(fd) if isinstance(r, ast.Return)]
-    c.check(added == ["expr.name"] and rets == ["expr.name"], "R14-ARGS",
+    pn = fd.args.args[1].arg + ".name"
+    c.check(added == [pn] and rets == [pn], "R14-ARGS",
             "NumpyCodegenMapper.map_placeholder", "argument-is-the-placeholder-name",
             m.loc(ci.module, fd),
             f"placeholder adds {added} as argument and uses {rets} in the code")
@@ -320,13 +328,19 @@ def r_args(c):
     bnd = [k.value for call in ast.walk(g) if isinstance(call, ast.Call)
            for k in call.keywords if k.arg == "bound_arguments"]
     wh = m.loc(NL, g)
-    c.check(len(kwonly) == 1 and "cgen_mapper.arg_names" in ast.unparse(kwonly[0]),
+    cg_ = find(g, "$cg = NumpyCodegenMapper($$__a)") + find(g, "$cg = NumpyCodegenMapper($$__a, $$__b)") \
+        + [e for e in find(g, "$cg = $$f") if ast.unparse(e["@node"].value).startswith(
+            "NumpyCodegenMapper(")]
+    if not cg_:
+        raise AnalysisError("anchor vanished: NumpyCodegenMapper instance in generate_numpy_like")
+    cgv = cg_[0]["$cg"]
+    c.check(len(kwonly) == 1 and f"{cgv}.arg_names" in ast.unparse(kwonly[0]),
             "R14-ARGS", "generate_numpy_like", "kwonlyargs-from-arg_names", wh,
             "the keyword-only parameter list is not built from the mapper's arg_names")
-    c.check(len(exp) == 1 and "cgen_mapper.arg_names" in ast.unparse(exp[0]),
+    c.check(len(exp) == 1 and f"{cgv}.arg_names" in ast.unparse(exp[0]),
             "R14-ARGS", "generate_numpy_like", "expected_arguments-from-arg_names", wh,
             "expected_arguments is not built from the mapper's arg_names")
-    c.check(len(bnd) == 1 and "cgen_mapper.bound_arguments" in ast.unparse(bnd[0]),
+    c.check(len(bnd) == 1 and f"{cgv}.bound_arguments" in ast.unparse(bnd[0]),
             "R14-ARGS", "generate_numpy_like", "bound_arguments-from-mapper", wh,
             "bound_arguments handed to the program are not the mapper's")
     for kd in ast.walk(g):
@@ -334,7 +348,7 @@ def r_args(c):
             kws = {k.arg: k.value for k in kd.keywords}
             a, d = kws.get("kwonlyargs"), kws.get("kw_defaults")
             same_len = a is not None and d is not None and \
-                "cgen_mapper.arg_names" in ast.unparse(d)
+                f"{cgv}.arg_names" in ast.unparse(d)
             c.check(same_len, "R14-ARGS", "generate_numpy_like",
                     "kw_defaults-same-length", wh,
                     "kw_defaults is not built from the same collection as kwonlyargs")
